@@ -63,6 +63,18 @@ func c08configs() []c08cfg {
 		Services: []Service{{Name: "db", Constructor: P("pk.New"), Fields: []KV{{"f1", "!value PK.Var"}, {"F1", "!value Pk.Var"}}},
 			{Name: "DB", Constructor: P("PK.New")}, {Name: "Db", Constructor: P("Pk.New")}},
 	})})
+	out = append(out, c08cfg{id: "invalid-every-validation-defect", files: func() []File {
+		cfg := c11base()
+		for _, d := range c11defects() {
+			d.apply(cfg)
+		}
+		// ... and the duplicates that are only visible across services
+		cfg.Services = append(cfg.Services, Service{Name: "dupA", Constructor: P("pk.New"), Getter: P("GetDup")}, Service{Name: "dupB", Constructor: P("pk.New"), Getter: P("GetDup")}, Service{Name: "dupC", Constructor: P("pk.New"), Getter: P("GetDup")})
+		return []File{{"c.yaml", cfg.YAML()}}
+	}})
+	out = append(out, c08cfg{id: "invalid-in-the-formatting-step-stub", flags: []string{"--stub"}, files: one(&Cfg{Meta: &Meta{Pkg: P("gen"), Imports: []KV{{"pk", "fx/pk"}, {"pk2", "fx/pk2"}}},
+		Services: []Service{{Name: "s", Constructor: P("pk.New"), Type: P("func"), Getter: P("GetS")}, {Name: "t", Constructor: P("pk2.New"), Type: P("*pk2.Obj"), Getter: P("GetT")}}})})
+	out = append(out, c08cfg{id: "invalid-in-the-formatting-step", files: one(&Cfg{Meta: &Meta{Pkg: P("gen"), ContainerType: P("type")}, Params: []Param{{"p", 1}}})})
 	out = append(out, c08cfg{id: "valid-three-files", files: func() []File {
 		r := rich()
 		a := &Cfg{Meta: r.Meta, Params: r.Params[:2]}
